@@ -70,7 +70,7 @@ fn fault_kind(f: &Fault) -> &'static str {
 }
 
 fn check<C: Pv>(c: &Case) -> Report {
-    let built: Built<C> = e1::interpret::<C>(&c.prog, e1::Excl::ALL_SAT);
+    let (built, linked): (Built<C>, bool) = e1::interpret_linked::<C>(&c.prog, e1::Excl::ALL_SAT);
     let Built {
         builder,
         publics,
@@ -242,6 +242,7 @@ fn check<C: Pv>(c: &Case) -> Report {
     let kinds: Vec<&str> = c.faults.iter().map(fault_kind).collect();
     let mut rep = Report::pass()
         .class(format!("field:{}", C::NAME))
+        .class(if linked { "decompose-links:recompose/coeff" } else { "decompose-links:default" })
         .classes(kinds.iter().map(|k| format!("fault:{k}")))
         .classes(excluded.iter().map(|e| format!("excluded_by_known_finding:{e}")));
     if uncommitted_hits > 0 {
